@@ -77,7 +77,7 @@ func c16ResultsGen(c *gen.Ctx) {
 	slow := 0
 	slowBudget := 14
 	if c.Thorough() {
-		slowBudget = 90
+		slowBudget = 48
 	}
 	seen := map[string]bool{}
 	add := func(steps ...string) {
@@ -179,7 +179,7 @@ func c16ResultsGen(c *gen.Ctx) {
 	// random scripts over two names
 	nRand := 60
 	if c.Thorough() {
-		nRand = 1500
+		nRand = 800
 	}
 	for i := 0; i < nRand; i++ {
 		var steps []string
